@@ -575,6 +575,9 @@ func (e *Env) memTerm(s CV, n, k string) string {
 
 func (e *Env) call(x *CE, pos bool) CV {
 	g := e.g
+	if x.Args[0].Op == "field" {
+		return e.methodCall(x, pos)
+	}
 	if x.Args[0].Op != "ident" {
 		fail("call of non-identifier in %s", x)
 	}
@@ -669,6 +672,25 @@ func (e *Env) call(x *CE, pos bool) CV {
 		return CV{v, et}
 	case "isbool":
 		return g.cv("((_ is ABool) "+argv(0).S+")", "Bool", nil)
+	case "deref":
+		// deref(p): the value a pointer to a non-struct (e.g. *[]T) points to
+		a := argv(0)
+		pt, ok := a.Ty.Underlying().(*types.Pointer)
+		if !ok {
+			fail("deref() needs a pointer: %s", x)
+		}
+		return CV{T{g.readHeap(e.st, g.boxHeapOf(pt.Elem()), a.S), g.sortOf(pt.Elem())}, pt.Elem()}
+	case "isanyint":
+		return g.cv("((_ is AInt) "+argv(0).S+")", "Bool", nil)
+	case "isanyflt":
+		return g.cv("((_ is AFlt) "+argv(0).S+")", "Bool", nil)
+	case "numtag":
+		a := argv(0)
+		return g.cv(ite("((_ is AInt) "+a.S+")", "(a.it "+a.S+")", "(a.ft "+a.S+")"), "Int", nil)
+	case "intof":
+		return g.cv("(a.i "+argv(0).S+")", "Int", nil)
+	case "fltof":
+		return g.cv("(a.f "+argv(0).S+")", "F64", nil)
 	case "isstr":
 		return g.cv("((_ is AStr) "+argv(0).S+")", "Bool", nil)
 	case "isbytes":
@@ -1054,4 +1076,41 @@ func (e *Env) boundedExists(x *CE, pos bool) (CV, bool) {
 		cur = prev
 	}
 	return g.cv(app(id, n.S), "Bool", nil), true
+}
+
+// methodCall: recv.m(args) in a contract — a method declared pure is evaluated in place.
+func (e *Env) methodCall(x *CE, pos bool) CV {
+	g := e.g
+	recv := e.tr(x.Args[0].Args[0], pos)
+	if recv.Ty == nil {
+		fail("%s: method call on an untyped value", x)
+	}
+	key := ""
+	switch t := recv.Ty.(type) {
+	case *types.Pointer:
+		if nt, ok := t.Elem().(*types.Named); ok {
+			key = "(*" + nt.Obj().Name() + ")." + x.Args[0].Name
+		}
+	case *types.Named:
+		key = "(" + t.Obj().Name() + ")." + x.Args[0].Name
+	}
+	fn := g.P.Funcs[key]
+	fs := g.Specs.Funcs[key]
+	if fn == nil || fs == nil || !fs.Pure {
+		fail("%s: method %s used in a contract must exist and be declared pure", x, key)
+	}
+	as := []T{recv.T}
+	for i, a := range x.Args[1:] {
+		v := e.tr(a, pos)
+		want := g.sortOf(fn.Params[i+1].Type())
+		if v.So != want {
+			v = e.coerce(v, want)
+		}
+		as = append(as, v.T)
+	}
+	rs := g.inlinePure(fn, as, e.st, e.pc)
+	if len(rs) != 1 {
+		fail("%s: pure method with %d results used as a value", x, len(rs))
+	}
+	return CV{rs[0], fn.Signature.Results().At(0).Type()}
 }
